@@ -60,6 +60,9 @@ func openFileToReader(filename string, gunzip bool) (io.ReadCloser, error) {
 	if err != nil {
 		return nil, err
 	}
+	if gunzip && !canRewind(baseFile) {
+		return openUnseekableGunzip(filename, baseFile), nil
+	}
 	var file io.ReadCloser = baseFile
 
 	if gunzip {
